@@ -1522,6 +1522,9 @@ class Key(object):
         key.private_byte = None
         key.private_hex = None
         key.secret = None
+        # the cached WIF is private key material as well
+        key._wif = None
+        key._wif_prefix = None
         return key
 
     def public_point(self):
@@ -2402,6 +2405,9 @@ class HDKey(Key):
         hdkey.secret = None
         hdkey.private_hex = None
         hdkey.private_byte = None
+        # the cached WIF is private key material as well
+        hdkey._wif = None
+        hdkey._wif_prefix = None
         hdkey.key_hex = hdkey.public_hex
         # hdkey.key = self.key.public()
         return hdkey
